@@ -891,8 +891,16 @@ func (c *compiler) evalCallExpression(node *ast.CallExpression) (interface{}, er
 					p.Elem().Set(harg)
 					harg = p
 				}
-				args = append(args, harg)
-				return
+				if harg.Type().AssignableTo(arg) {
+					args = append(args, harg)
+					return
+				}
+				if harg.Type().ConvertibleTo(arg) {
+					args = append(args, harg.Convert(arg))
+					return
+				}
+				// a type of the caller's own that merely implements the
+				// interface can not be filled in: it gets its zero value below
 			}
 
 			if arg.ConvertibleTo(reflect.TypeOf(map[string]interface{}{})) {
@@ -1049,6 +1057,7 @@ func (c *compiler) evalForExpression(node *ast.ForExpression) (interface{}, erro
 		for i := 0; i < len(keys); i++ {
 			k := keys[i]
 			v := riter.MapIndex(k)
+
 			c.ctx.Set(node.KeyName, k.Interface())
 			c.ctx.Set(node.ValueName, v.Interface())
 
